@@ -465,6 +465,22 @@ static std::string op_traj(const std::vector<std::string>& w)
         memset(&vf, 0x5A, sizeof vf);
         memset(&vh, 0x5A, sizeof vh);
         sb_error_t ef, eh = SB_SUCCESS;
+        if (kind == 'd') {
+            // total duration asked of the player itself (fresh, and the one with the history)
+            uint32_t df = 0, dh = 0;
+            ef = sb_trajectory_player_get_total_duration_msec(&fp, &df);
+            if (hist) eh = sb_trajectory_player_get_total_duration_msec(&hp, &dh);
+            sb_error_t eu = hist ? eh : ef;
+            out += std::string(" d:") + code(eu);
+            if (eu == SB_SUCCESS) {
+                out += ":" + U(hist ? dh : df);
+            }
+            if (hist) {
+                out += (ef == eh && (ef != SB_SUCCESS || df == dh)) ? ":=" : ":X";
+            }
+            sb_trajectory_player_destroy(&fp);
+            continue;
+        }
         if (kind == 'p') {
             ef = sb_trajectory_player_get_position_at(&fp, t, &vf);
             if (hist) eh = sb_trajectory_player_get_position_at(&hp, t, &vh);
